@@ -142,10 +142,20 @@ class ClassEval:
         fn = node.func
         t = norm(fn)
         ev = lambda x: self._value(self.ce.eval(x, self.mod, local))  # noqa: E731
+        # a mutating method of a concrete local container used as an expression (`unget(charStack.pop())`)
+        if isinstance(fn, ast.Attribute) and isinstance(fn.value, ast.Name) and isinstance((local or {}).get(fn.value.id), (list, dict, set)) and \
+                fn.attr in ("pop", "append", "extend", "insert", "remove", "clear", "add", "discard", "update", "setdefault", "popitem") and not node.keywords:
+            try:
+                return getattr(local[fn.value.id], fn.attr)(*[ev(a) for a in node.args])
+            except (IndexError, KeyError, ValueError) as e:
+                raise NotConstant("%s: %s" % (type(e).__name__, e))
         # a method of a Record: the model the rule supplied (not repository code)
         if isinstance(fn, ast.Attribute) and not fn.attr.startswith("_"):
             try:
-                base_ = (local or {}).get(fn.value.id) if isinstance(fn.value, ast.Name) else self.ce.eval(fn.value, self.mod, local)
+                if isinstance(fn.value, ast.Name):
+                    base_ = (local or {}).get(fn.value.id, self.globals_override.get(fn.value.id))
+                else:
+                    base_ = self.ce.eval(fn.value, self.mod, local)
             except NotConstant:
                 base_ = None
             if isinstance(base_, Record) and callable(getattr(base_, fn.attr, None)) and not node.keywords:
@@ -264,10 +274,51 @@ class ClassEval:
                 except NotConstant as e:
                     raise AnalysisError("store `%s` is not interpreted (%s)" % (norm(st)[:80], e))
                 return False
+        # a store into a concrete container reached through an expression (`self.currentToken["data"][-1][1] += output`)
+        if isinstance(st, (ast.Assign, ast.AugAssign)):
+            tg = st.targets[0] if isinstance(st, ast.Assign) and len(st.targets) == 1 else getattr(st, "target", None)
+            if isinstance(tg, ast.Subscript) and not isinstance(tg.value, ast.Name):
+                try:
+                    cont = interp.eval_expr(tg.value, env)
+                    if isinstance(cont, (list, dict)):
+                        k = self._value(interp.eval_expr(tg.slice, env))
+                        v = self._value(interp.eval_expr(st.value, env))
+                        if isinstance(st, ast.AugAssign):
+                            import operator as _op
+                            ops = {ast.Add: _op.add, ast.Sub: _op.sub, ast.Mult: _op.mul, ast.BitOr: _op.or_, ast.BitAnd: _op.and_}
+                            if type(st.op) not in ops:
+                                raise NotConstant("augmented operator")
+                            v = ops[type(st.op)](cont[k], v)
+                        cont[k] = v
+                        return False
+                except NotConstant as e:
+                    raise AnalysisError("store `%s` is not interpreted (%s)" % (norm(st)[:80], e))
         if isinstance(st, ast.Delete) and len(st.targets) == 1 and isinstance(st.targets[0], ast.Subscript) and \
                 isinstance(st.targets[0].value, ast.Attribute) and norm(st.targets[0].value.value) == "self" and st.targets[0].value.attr in self.attrs:
             self.attrs[st.targets[0].value.attr].pop(self._value(interp.eval_expr(st.targets[0].slice, env)), None)
             return False
+        if isinstance(st, ast.Try):
+            # exceptions raised by the rule's models (a trie's KeyError) and by folded builtins select the handler as written
+            caught = (KeyError, ValueError, IndexError, TypeError, LookupError, StopIteration, ZeroDivisionError, AttributeError)
+            try:
+                left = interp._block(st.body, out)
+            except caught as e:
+                names = [c.__name__ for c in type(e).__mro__]
+                for h in st.handlers:
+                    hn = [] if h.type is None else [norm(x).split(".")[-1] for x in (h.type.elts if isinstance(h.type, ast.Tuple) else [h.type])]
+                    if h.type is None or any(n_ in names for n_ in hn):
+                        if h.name:
+                            env[h.name] = Opaque("exception")
+                        left = interp._block(h.body, out)
+                        break
+                else:
+                    raise
+            else:
+                if not left and st.orelse:
+                    left = interp._block(st.orelse, out)
+            if st.finalbody:
+                left = interp._block(st.finalbody, out) or left
+            return left
         if isinstance(st, ast.While):
             n = 0
             while interp.eval_guard(st.test, env):
@@ -312,7 +363,10 @@ class ClassEval:
         f = self.cls.find_method(mname)
         if f is None:
             raise AnalysisError("%s has no method %s" % (self.cls.name, mname))
-        return self._run(f, f.params()[1:], args, kwargs, "%s.%s" % (self.cls.name, mname), with_self=True)
+        static = any(norm(d) == "staticmethod" for d in f.node.decorator_list)
+        if any(norm(d) not in ("staticmethod",) for d in f.node.decorator_list):
+            raise AnalysisError("%s.%s is decorated (%s)" % (self.cls.name, mname, [norm(d) for d in f.node.decorator_list]))
+        return self._run(f, f.params() if static else f.params()[1:], args, kwargs, "%s.%s" % (self.cls.name, mname), with_self=not static)
 
     def _run(self, f, params, args, kwargs, label, with_self):
         mname = label
